@@ -411,3 +411,29 @@ def _ancestors(via: dict[str, str], r: str) -> list[str]:
         out.append(p)
         p = via.get(p)
     return out
+
+
+# ------------------------------------------------------------------ self-test variants
+from ..mutants import M  # noqa: E402
+
+_CV = "src/fandango/language/parse/convert.py"
+_G4 = "language/FandangoParser.g4"
+MUTANTS = [
+    M("drop-star-named-handler", _CV, "    def visitStar_named_expression(\n        self, ctx: FandangoParser.Star_named_expressionContext\n    ):", "    def visit_Star_named_expression(\n        self, ctx: FandangoParser.Star_named_expressionContext\n    ):", "R08-a"),
+    M("drop-expr-handler", _CV, "    def visitExpr(self, ctx: FandangoParser.ExprContext):\n        # Without this handler", "    def _visitExpr(self, ctx: FandangoParser.ExprContext):\n        # Without this handler", "R08-a"),
+    M("drop-await-handler", _CV, "    def visitAwait_primary(self, ctx: FandangoParser.Await_primaryContext):", "    def visitAwaitPrimary(self, ctx: FandangoParser.Await_primaryContext):", "R08-a"),
+    M("floor-div-becomes-div", _CV, "            return self._visit_bin_op(ctx, ast.FloorDiv())", "            return self._visit_bin_op(ctx, ast.Div())", "R08-b"),
+    M("shift-swapped", _CV, "        if ctx.LEFT_SHIFT():\n            return self._visit_bin_op(ctx, ast.LShift())\n        elif ctx.RIGHT_SHIFT():\n            return self._visit_bin_op(ctx, ast.RShift())",
+      "        if ctx.LEFT_SHIFT():\n            return self._visit_bin_op(ctx, ast.RShift())\n        elif ctx.RIGHT_SHIFT():\n            return self._visit_bin_op(ctx, ast.LShift())", "R08-b"),
+    M("lte-becomes-lt", _CV, "        return ast.LtE(), self.visitBitwise_or(ctx.bitwise_or())", "        return ast.Lt(), self.visitBitwise_or(ctx.bitwise_or())", "R08-b"),
+    M("matmul-branch-removed", _CV, "        elif ctx.AT():\n            return self._visit_bin_op(ctx, ast.MatMult())\n", "", "R08-b"),
+    M("defaults-to-kwonly", _CV, "            arg, d, s, m = self.visitParam_with_default(param)\n            args.append(arg)\n            defaults.append(d)\n",
+      "            arg, d, s, m = self.visitParam_with_default(param)\n            kwonlyargs.append(arg)\n            kw_defaults.append(d)\n", "R08-c"),
+    M("default-value-dropped", _CV, "            arg, d, s, m = self.visitParam_with_default(param)\n            args.append(arg)\n            defaults.append(d)\n",
+      "            arg, d, s, m = self.visitParam_with_default(param)\n            args.append(arg)\n            if d is not None and ctx.star_etc():\n                defaults.append(d)\n", "R08-c"),
+]
+TWINS = [
+    M("twin-sum-elif-to-if", _CV, "        if ctx.ADD():\n            return self._visit_bin_op(ctx, ast.Add())\n        elif ctx.MINUS():\n            return self._visit_bin_op(ctx, ast.Sub())\n        return self.visitTerm(ctx.term())",
+      "        if ctx.ADD():\n            return self._visit_bin_op(ctx, ast.Add())\n        if ctx.MINUS():\n            return self._visit_bin_op(ctx, ast.Sub())\n        return self.visitTerm(ctx.term())", None),
+    M("twin-param-loop-rename", _CV, "            arg, d, s, m = self.visitParam_with_default(param)\n            args.append(arg)\n            defaults.append(d)\n", "            arg, dflt, s, m = self.visitParam_with_default(param)\n            args.append(arg)\n            defaults.append(dflt)\n", None),
+]
